@@ -3,7 +3,7 @@ CONSTANTS
   Helper = "MC"
   Mode = "with"
   Prims <- McTimed
-  MaxLen = 3
+  MaxLen = 2
   DH = 300
   DV = 500
   DL = 0
@@ -11,8 +11,8 @@ CONSTANTS
   X0 = 0
   Y0 = 0
   Z0 = 0
-  Lats = {}
-  MaxLat = 0
+  Lats <- Lat3
+  MaxLat = 1
   Bug = "none"
 INVARIANT NoViolation
 INVARIANT Ended
